@@ -755,17 +755,27 @@ class TreeGitStore(GitStore):
         try:
             with locked_index(self.repo.index_path()) as index:
                 p = os.path.join(self.repo.path, name)
+                encoded_name = name.encode(DEFAULT_ENCODING)
+                old_sha = index[encoded_name].sha if encoded_name in index else None
                 with open(p, "wb") as f:
                     f.writelines(data)
-                st = os.lstat(p)
-                blob = Blob.from_string(b"".join(data))
-                encoded_name = name.encode(DEFAULT_ENCODING)
-                if encoded_name not in index or blob.id != index[encoded_name].sha:
-                    self.repo.object_store.add_object(blob)
-                    index[encoded_name] = index_entry_from_stat(st, blob.id)
-                    self._commit_tree(
-                        index, message.encode(DEFAULT_ENCODING), author=author
-                    )
+                try:
+                    st = os.lstat(p)
+                    blob = Blob.from_string(b"".join(data))
+                    if old_sha is None or blob.id != old_sha:
+                        self.repo.object_store.add_object(blob)
+                        index[encoded_name] = index_entry_from_stat(st, blob.id)
+                        self._commit_tree(
+                            index, message.encode(DEFAULT_ENCODING), author=author
+                        )
+                except BaseException:
+                    # The change was not committed; put the working tree back.
+                    if old_sha is None:
+                        os.unlink(p)
+                    else:
+                        with open(p, "wb") as f:
+                            f.write(self.repo.object_store[old_sha].data)
+                    raise
                 return blob.id
         except FileLocked as exc:
             raise LockedError(name) from exc
@@ -809,10 +819,16 @@ class TreeGitStore(GitStore):
                 except FileNotFoundError as exc:
                     # Deleted by somebody else since the check above
                     raise NoSuchItem(name) from exc
-                del index[name.encode(DEFAULT_ENCODING)]
-                self._commit_tree(
-                    index, message.encode(DEFAULT_ENCODING), author=author
-                )
+                try:
+                    del index[name.encode(DEFAULT_ENCODING)]
+                    self._commit_tree(
+                        index, message.encode(DEFAULT_ENCODING), author=author
+                    )
+                except BaseException:
+                    # The removal was not committed; put the working tree back.
+                    with open(p, "wb") as f:
+                        f.write(current_blob.data)
+                    raise
         except FileLocked:
             raise LockedError(name)
 
